@@ -2,12 +2,33 @@ package main
 
 import (
 	"fmt"
+	"strings"
 
 	"annverif/core"
+	"annverif/equiv"
 )
+
+var extraCmds = map[string]func([]string) int{}
 
 func thoroughExtras(prop, repo string, rep *core.Report) int { return 0 }
 
 func cmdExplain(args []string) int { fmt.Println("not yet"); return 2 }
 
 func cmdSelftest(args []string) int { fmt.Println("not yet"); return 2 }
+
+func init() {
+	extraCmds["tokens"] = func(args []string) int {
+		// annverif tokens <relpkg> <key>
+		p, err := core.Load(core.LoadOpts{Repo: "/repo", Patterns: []string{"./eth/..."}, Ref: []string{core.RefMod + "/" + strings.TrimPrefix(args[0], "eth/")}})
+		if err != nil {
+			fmt.Println(err)
+			return 2
+		}
+		eq := equiv.New(p.AllPkgs, nil)
+		tree, ref, err := eq.TokenStrings(core.Mod+"/"+args[0], args[1])
+		fmt.Println("TREE:", tree)
+		fmt.Println("REF :", ref)
+		fmt.Println(err)
+		return 0
+	}
+}
